@@ -106,19 +106,43 @@ class FaultScen(Scen):
         return "\n".join(j) + "\n"
 
     def observe(self, c):
-        return c.first({"read": "R", "validate": "S", "copy": "P"}[self.scen])
+        return c.first({"read": "R", "validate": "S", "copy": "P", "chunkreq": "Q"}[self.scen])
 
     def success(self, r):
         if self.scen == "read":
             return r["open"] == "1" and r["last"] == "0" and r["ferr"] == "0" and r["rclose"] == "1"
         if self.scen == "validate":
             return any(x.split(":")[1] == "1" for x in r["steps"].split(";")) if r["steps"] != "-" else False
+        if self.scen == "chunkreq":
+            return r["reqs"] != "-" and all(int(x.split(":")[1]) >= 0 for x in r["reqs"].split(";"))
         return r["ret"] == "1"
 
     def judge(self, r, base):
         if self.scen == "read":
             if self.success(r) and core.unhex(r["content"]) != self.expect:
                 return "reader-reports-success-with-wrong-content", "%d bytes returned with success, the file holds %d" % (len(core.unhex(r["content"])), len(self.expect))
+            return None
+        if self.scen == "chunkreq":
+            if r["reqs"] == "-":
+                return None
+            ext = zckref.extents(self.pb)
+            ustart = [0]
+            for c_ in self.pb.chunks[1:]:
+                ustart.append(ustart[-1] + c_.ulen)
+            for rq in r["reqs"].split(";"):
+                op, ret, hx_ = rq.split(":")
+                i, ret = int(op[1:]), int(ret)
+                if ret < 0:
+                    continue
+                got = bytes.fromhex(hx_) if hx_ != "-" else b""
+                if op[0] == "S":
+                    want = self.file[ext[i][0]:ext[i][0] + ext[i][1]]
+                else:
+                    want = self.expect["dict"] if i == 0 else self.expect["content"][ustart[i - 1]:ustart[i - 1] + self.pb.chunks[i].ulen]
+                # a count smaller than the chunk with exactly that many leading bytes is an honest short result (the caller sees
+                # the count); anything else handed out with success is wrong
+                if got != want[:len(got)] or len(got) > len(want) or ret != len(got):
+                    return "chunk-request-reports-success-with-wrong-bytes", "request %s returned %d bytes that are not the chunk's %s" % (op, ret, "stored bytes" if op[0] == "S" else "data")
             return None
         if self.scen == "validate":
             if r["steps"] == "-":
@@ -294,6 +318,10 @@ def scenarios(ctx):
     bad = bytearray(fn); bad[off + 3] ^= 0x20; bad = bytes(bad)
     S += [FaultScen("validate-damaged", "validate", bad, "ops=V,D,F", valid=False, pb=pn),
           FaultScen("validate-intact", "validate", fn, "ops=F,D", valid=True, pb=pn)]
+    # chunk requests (data and stored bytes, every chunk, one context): the stored bytes are not covered by any digest check
+    # on the way out, so a read that comes back short or fails must not end in a successful request with other bytes
+    S += [FaultScen("chunk-requests-none", "chunkreq", fn, "ops=C1,S2,C3,S1", expect={"dict": b"", "content": content}, pb=pn),
+          FaultScen("chunk-requests-zstd-dict", "chunkreq", fzd, "ops=S1,C2,S3,C0", expect={"dict": D, "content": content}, pb=zckref.parse(fzd))]
     paab = zckref.parse(faab)
     S += [FaultScen("copy-chunks", "copy", fn, "tmark=+000", src=fab, pb=pn)]
     S += [UpdateScen("update-ab-abc", fab, fn, -1), UpdateScen("update-none-aab-limit1", None, faab, 1)]
